@@ -52,6 +52,12 @@ CHECKS["C05"] = dict(
     text="Every request of finite menus (all ROA deltas of <=2 / <=3 entries out of 11 additions and 3 removals covering implicit/explicit/invalid max length, unheld, v6, AS0, present with same/new comment, duplicates; ASPA set/delete/provider updates; BGPsec add with valid and corrupted CSR / delete; child add/update with six resource sets) against five CA states (empty, configured, configured-then-shrunk, aggregated, mid-roll): refusal exactly when the property text demands it, refused requests change nothing but one audit record (configuration, published-object set, repository, queue compared), accepted ones are applied as a whole.",
     note="Reference predicate written from the property text; cases the text does not decide (duplicates inside a delta, no-op replacements, lenient provider-set updates, update of an existing child to nothing) are only checked for atomicity. Trusted: fork-copy isolation of the state.")
 
+CHECKS["C14"] = dict(
+    engine="E1", category="model_checking", design="4/C14",
+    technique="explicit-state exploration (fork-checkpointed DFS) with the virtual clock as an operation; maintenance runs (republish + renew) checked in two phases against undecoded-validity observations of every manifest, CRL and signed object",
+    text="Every sequence (up to the completed depth) of clock steps placed one second before / two seconds inside each re-issue margin (manifest/CRL and object expiry), one hour and (with parent refresh and TA renewal) long jumps, content changes, key-roll steps (staging and old key sets present) and maintenance runs, under 2 (3 thorough) timing configurations: every key set within the margin is re-issued by exactly one number and published, sets and objects not due are untouched (nothing due => repository byte-identical), objects within their re-issue margin get a new serial and later expiry, manifest number == CRL number and never decreases, windows contain the present, payloads unchanged, tree RP-valid after the run.",
+    note=E1_NOTE + " Krill's config validation forbids margin >= lifetime for manifests and ROAs, so 'equal/larger' margins cannot be configured for those; explored configurations are (24h/8h, 52w/4w), (2h/1h, 2w/1w), (3h/2h, 3w/2w).")
+
 NOT_YET = {
 }
 
